@@ -31,7 +31,8 @@ META = {
 
 BES = ["slurm", "sge", "lsf"]
 DEFAULTS = {"slurm": slurm_mod.TARGET_DEFAULTS, "sge": sge_mod.TARGET_DEFAULTS, "lsf": lsf_mod.TARGET_DEFAULTS}
-LEVEL_VALUES = {"cores": [2, 3, 4], "queue": ["qw", "qt", "qk"], "memory": ["8g", "12g", "16g"], "walltime": ["02:00:00", "03:00:00", "04:00:00"], "account": ["aw", "at", "ak"]}
+# (walltime 0 = "no limit" on Slurm: a value that is false in Python but is not None, so it must reach the script)
+LEVEL_VALUES = {"cores": [2, 3, 4], "queue": ["qw", "qt", "qk"], "memory": ["8g", "12g", "16g"], "walltime": ["02:00:00", 0, "04:00:00"], "account": ["aw", "at", "ak"]}
 ABSENT, NONE, VALUE = 0, 1, 2
 
 
@@ -507,7 +508,7 @@ QUERIES = [
     {"name": "V10-shell", "fn": validate_shell_reader, "concrete": True, "shards": [{}], "timeout": 120,
      "bound": "stub validation (concrete, real bash): `bash -n` on the scripts of the three backends; reference shell word reader == real bash on the cd line of every accepted directory name of 1-2 catalogue characters"},
     {"name": "Q10a", "fn": q10a,
-     "shards": {"quick": [{"be": b, "opt": o, "mode": m} for b in BES for o, m in (("cores", "template"), ("queue", "template"), ("memory", "target"))],
+     "shards": {"quick": [{"be": b, "opt": o, "mode": m} for b in BES for o, m in (("cores", "template"), ("queue", "template"), ("memory", "target"))] + [{"be": "slurm", "opt": "walltime", "mode": "template"}],
                 "thorough": [{"be": b, "opt": o, "mode": m} for b in BES for o in ("cores", "queue", "memory") for m in ("target", "template")]
                             + [{"be": b, "opt": o, "mode": "template"} for b in ("slurm", "sge") for o in ("walltime", "account")]},
      "timeout": {"quick": 600, "thorough": 1500},
